@@ -21,6 +21,8 @@ func main() {
 			os.Exit(runC20(os.Args[3]))
 		}
 		os.Exit(runCheck(os.Args[2], os.Args[3]))
+	case "replpool":
+		genReplPool()
 	case "concrete":
 		os.Exit(runConcrete(os.Args[2:]))
 	case "difftest":
